@@ -4,6 +4,7 @@ current source on every run.
 """
 import ast
 import importlib
+import numpy as np
 import os
 import sys
 import warnings
@@ -133,8 +134,36 @@ def install():
         if any(self[c].dtype == object for c in self.columns):
             if not self.isna().any().any():
                 return self
-            # gaps: interpolate only the float columns; object columns must be gap-free
-            raise sym.Realisation('interpolate on symbolic column with gaps')
+            # gaps in symbolic columns: linear interpolation in time between the neighbouring known rows (concrete index, symbolic values),
+            # nearest known value beyond the ends -- what method='time', limit_direction='both' does
+            if k.get('method', a[0] if a else None) != 'time' or not isinstance(self.index, pd.DatetimeIndex):
+                raise sym.Realisation('interpolate on symbolic column with gaps (method other than time)')
+            from fractions import Fraction
+            out = self.copy()
+            ts = [int(t.value) for t in self.index]
+            for c in self.columns:
+                col = list(self[c].values)
+                known = [i for i, v in enumerate(col) if not (isinstance(v, float) and v != v) and v is not None and not (v is pd.NaT)]
+                if not known:
+                    continue
+                new = list(col)
+                for i in range(len(col)):
+                    if i in known:
+                        continue
+                    before = [j for j in known if j < i]
+                    after = [j for j in known if j > i]
+                    if before and after:
+                        j0, j1 = before[-1], after[0]
+                        w = Fraction(ts[i] - ts[j0], ts[j1] - ts[j0])
+                        new[i] = col[j0] * float(1 - w) + col[j1] * float(w) if not isinstance(col[j0], sym.Sym) and not isinstance(col[j1], sym.Sym) \
+                            else sym.Sym(sym.lift(col[j0]) * sym.ratval(1 - w) + sym.lift(col[j1]) * sym.ratval(w))
+                    else:
+                        new[i] = col[before[-1]] if before else col[after[0]]
+                arr = np.empty(len(new), dtype=object)
+                for i, v in enumerate(new):
+                    arr[i] = v
+                out[c] = arr
+            return out
         return _orig_interp(self, *a, **k)
     pd.DataFrame.interpolate = _interp
     _installed = True
